@@ -161,9 +161,10 @@ PROPS = {
                         'the script an input is matched on is the result of TxIn::get_finalised_script_impl (uninterpreted here; its contract is proved in unit interp_sig, C15)',
                         'derive(PartialEq) on OpCodes is structural; Option<u64> comparison operators follow vstd (None < Some(_))',
                         'inputs that record no value: the property is silent; the proved selection predicate treats the value as unknown (fails any exact / minimum bound, is not subjected to a maximum bound)',
-                        'NOT covered: the template text grammar (ScriptTemplate::map_string_to_match_token, from_asm_string_impl: str::split_once / starts_with / FromStr, outside Verus\' str support), hence also "a script matches the template derived from itself" (goes through the ASM text, C17) and the operator-precedence clause of the token grammar'],
+                        'template text grammar: str::len, FromStr for u8 / usize, the strum name table of OpCodes, str::starts_with, str::split_once and hex decoding are UNINTERPRETED functions of the text (Verus cannot reason about string contents); the proved statement is about how one word is classified given their results, not about concrete texts',
+                        'NOT covered: splitting the template text into words (from_asm_string_impl: str::split + iterator collect into Result), hence "a script matches the template derived from itself" (goes through the ASM rendering, C17)'],
         'design_ref': 'DESIGN.md section 4 C19',
-        'level_text': 'Verus proves on the real bodies of Script::match_impl / test_impl / is_match: the result is Ok exactly when template and script have the same number of elements and every element satisfies its token, with the token relation written from the property statement (exact opcode / push / pushdata equality, the five length comparisons of a data token against the payload length, any-data, signature = strict DER optionally followed by a flag byte, public key = valid SEC1 point, public-key hash = 20 bytes; the last three only on direct pushes), and the extracted list is exactly the matched pushes in script order tagged with their token kind; and on Transaction::is_matching_output / is_matching_input / match_output(s) / match_input(s): an output is selected exactly when its script matches the template (if any) and its value satisfies the exact, minimum and maximum bounds (inclusive), the plural forms return exactly the selected indices in increasing order and the singular forms the first one (None only when nothing is selected); an input whose script cannot be assembled is not selected (no panic).',
+        'level_text': 'Verus proves on the real bodies of Script::match_impl / test_impl / is_match: the result is Ok exactly when template and script have the same number of elements and every element satisfies its token, with the token relation written from the property statement (exact opcode / push / pushdata equality, the five length comparisons of a data token against the payload length, any-data, signature = strict DER optionally followed by a flag byte, public key = valid SEC1 point, public-key hash = 20 bytes; the last three only on direct pushes), and the extracted list is exactly the matched pushes in script order tagged with their token kind; and on Transaction::is_matching_output / is_matching_input / match_output(s) / match_input(s): an output is selected exactly when its script matches the template (if any) and its value satisfies the exact, minimum and maximum bounds (inclusive), the plural forms return exactly the selected indices in increasing order and the singular forms the first one (None only when nothing is selected); an input whose script cannot be assembled is not selected (no panic). ScriptTemplate::map_string_to_match_token (one word of template text): numeric aliases 0..16 (only for texts shorter than 3 bytes) give OP_0 / OP_1..OP_16, opcode names give the exact opcode except OP_SIG / OP_PUBKEY / OP_PUBKEYHASH / OP_DATA which give the fuzzy tokens, a word starting with the name of OP_DATA that contains a comparison operator gives a length token with the operator recognised in the order >=, <=, =, >, < and mapped to the same-named comparison and the number parsed from the text after it (unparsable number = error), anything else must be hex and gives an exact push token whose push opcode is determined by the payload length.',
         'level_note': TB,
     },
     'C20': {
